@@ -377,6 +377,9 @@ func BuildCase(res *Result) (term string, steps int, problem string) {
 		}
 	}
 	out := append([]Outcome(nil), res.Outcomes...)
+	if sc.Sync {
+		out = append([]Outcome(nil), res.SyncReturns...)
+	}
 	sort.SliceStable(out, func(i, j int) bool { return out[i].ID < out[j].ID })
 	var ocs []string
 	for _, o := range out {
